@@ -22,7 +22,7 @@ from .corpus import content_bytes
 CACHE_DIR = ".codelimit_cache"
 CACHE_FILE = "codelimit.json"
 MARKERS = ("CACHEDIR.TAG", ".gitignore")
-STEP_BUDGET = 5_000_000
+STEP_BUDGET = 8_000_000
 _TOOL = 4
 
 
@@ -94,6 +94,14 @@ def _py_start(code, offset):
         raise StepBudgetExceeded("step budget exceeded")
 
 
+def _jump(code, src, dst):
+    # loop iterations count as steps too: a loop that calls nothing must not escape the budget
+    _Steps.n += 1
+    if _Steps.n > _Steps.limit:
+        _Steps.limit = 1 << 62
+        raise StepBudgetExceeded("step budget exceeded")
+
+
 def _steps_begin(limit=STEP_BUDGET):
     mon = sys.monitoring
     if not _Steps.on:
@@ -102,10 +110,11 @@ def _steps_begin(limit=STEP_BUDGET):
         except ValueError:
             pass
         mon.register_callback(_TOOL, mon.events.PY_START, _py_start)
+        mon.register_callback(_TOOL, mon.events.JUMP, _jump)
         _Steps.on = True
     _Steps.n = 0
     _Steps.limit = limit
-    mon.set_events(_TOOL, mon.events.PY_START)
+    mon.set_events(_TOOL, mon.events.PY_START | mon.events.JUMP)
 
 
 def _steps_end() -> int:
@@ -478,7 +487,10 @@ class World:
         out, err = io.StringIO(), io.StringIO()
         obs = {}
         os.chdir(cwd)
-        _steps_begin(self.budget)
+        # bounded liveness: the budget grows with the tree (largest corpus text costs ~0.4 M
+        # steps), so only a loop that does not terminate exhausts it
+        n_files = sum(1 for _r, is_dir in list_tree(self.root) if not is_dir) if self.budget >= STEP_BUDGET else 0
+        _steps_begin(max(self.budget, 1_500_000 * n_files))
         CTX.active = True
         try:
             with contextlib.redirect_stdout(out), contextlib.redirect_stderr(err):
